@@ -52,6 +52,7 @@ import gtirb_rewriting._auxdata_offsetmap as _auxdata_offsetmap
 
 from ._modify import (
     ModifyCache,
+    ReferenceCache,
     SymbolDeletionOptions,
     delete,
     delete_symbols,
@@ -385,6 +386,7 @@ class RewritingContext:
         context: InsertionContext,
         *,
         implicit_cfi_procedure: bool = True,
+        reference_cache: Optional[ReferenceCache] = None,
     ) -> Optional[Assembler.Result]:
         """
         Invokes a patch at a concrete location and assembles it.
@@ -396,6 +398,9 @@ class RewritingContext:
         :param context: The InsertionContext to pass to the patch.
         :param implicit_cfi_procedure: Should the patch implicitly be in a CFI
                                        procedure?
+        :param reference_cache: The reference cache in use, if any. Symbols
+                                the patch refers to get their referents
+                                resolved through it.
         :returns: The result of assembling the patch.
         """
 
@@ -440,8 +445,22 @@ class RewritingContext:
         elif isinstance(actual_block, gtirb.DataBlock):
             is_trivially_unreachable = True
 
+        target = Assembler.ModuleTarget(self._module)
+        if reference_cache is not None:
+            # The assembler inspects Symbol.referent directly (e.g. to find
+            # the target of a branch), so symbols handed to it must not have
+            # their referent held indirectly by the reference cache.
+            module_symbol_lookup = target.symbol_lookup
+
+            def symbol_lookup(name: str) -> Iterator[gtirb.Symbol]:
+                for sym in module_symbol_lookup(name):
+                    reference_cache.get_referent(sym)
+                    yield sym
+
+            target.symbol_lookup = symbol_lookup
+
         assembler = Assembler(
-            self._module,
+            target,
             temp_symbol_suffix=f"_{self._patch_id}",
             trivially_unreachable=is_trivially_unreachable,
             implicit_cfi_procedure=implicit_cfi_procedure,
@@ -683,6 +702,7 @@ class RewritingContext:
                         actual_block,
                         actual_offset,
                         context,
+                        reference_cache=modify_cache.reference_cache,
                     )
                 else:
                     assembler_result = self._synthesize_result(
@@ -823,6 +843,7 @@ class RewritingContext:
             0,
             context,
             implicit_cfi_procedure=False,
+            reference_cache=modify_cache.reference_cache,
         )
         if assembler_result is None:
             return
